@@ -27,7 +27,10 @@ public:
             const cmplx_t w = {std::cos(phase), std::sin(phase)};
             r[i] = x[i] * w;
             ++_phase;
-            _phase = (_phase < _fs) ? _phase : 0;
+            //the oscillator repeats every fs samples only for an integer frequency
+            if ((_phase >= _fs) && (_freq == std::floor(_freq))) {
+                _phase = 0;
+            }
         }
         return r;
     }
@@ -47,7 +50,7 @@ public:
 private:
     int _fs;
     real_t _freq;
-    int _phase{0};
+    long long _phase{0};
 };
 
 }   // namespace dsplib
